@@ -62,6 +62,16 @@ PAIRS = (
     ("F81", "HKY85", "matrix+scope"),  # richer matrix AND a per-edge parameter at once
     ("HKY85", "GTR", "matrix+scope"),
     ("HKY85", "TN93", "matrix+scope"),
+    # equal-frequency and strand-symmetric nulls inside the non-stationary models
+    ("K80", "ssGN", "matrix"),
+    ("JC69", "ssGN", "matrix"),
+    ("K80", "GN", "matrix"),
+    ("JC69", "GN", "matrix"),
+    ("ssGN", "GN", "matrix"),
+    # richer matrix and free motif probabilities at once
+    ("JC69", "HKY85", "mprobs"),
+    ("K80", "TN93", "mprobs"),
+    ("K80", "GTR", "mprobs"),
 )
 
 
@@ -617,7 +627,7 @@ CROSS_HASHSEED = 64
 
 EVIDENCE = {
     "rule": (
-        "scenario = nested pair (23 pairs: by rate matrix F81/HKY85/TN93/GTR/GN, JC69/K80; by motif-probability "
+        "scenario = nested pair (31 nucleotide pairs: by rate matrix F81/HKY85/TN93/GTR/GN, JC69/K80; by motif-probability "
         "freedom K80->HKY85, JC69->F81; by scope: global vs per-edge / edge-set parameter, a null that already has a two-scope parameter refined further, and pairs nested by matrix and scope at once; in 40% of matrix/mprobs pairs the null holds one rate parameter constant, everywhere or on an edge set; 4% (quick) / 6% (thorough) of scenarios use one of 11 codon pairs: MG94HKY->MG94GTR, CNFHKY->CNFGTR, Y98->H04G/H04GK/H04GGK, H04G/H04GK->H04GGK, scope pairs on MG94HKY, Y98, H04GK, CNFGTR) "
         "x tree (3-5 taxa) x simulated alignment (length, divergence, base composition) x start values x optimiser "
         "settings (local / global / both, tolerance, max_restarts, seed, bounds) x cut-offs n1, n2 from 1..400 x "
